@@ -147,8 +147,6 @@ Definition options_src_ok : bool :=
 
 Definition failing_options : list bytes := map opt_name (filter (fun o => negb (option_src_ok o)) good_samples).
 
-Lemma options_src_ok_true : options_src_ok = true.
-Proof. vm_compute. reflexivity. Qed.
 
 (* ---------- the loops that apply an option list to an object ---------- *)
 From Scrapli Require Import DecideLoops.
